@@ -1,7 +1,7 @@
-\* quick: one token, 5 values, 1 iterator; full transition graph exported for the product walk
+\* quick: one token, 8 values, 1 iterator (every AVL shape up to 8 nodes: all rotation cases, rotation below an ancestor); graph exported
 SPECIFICATION Spec
 CONSTANTS
-  K = 5
+  K = 8
   T = 1
   I = 1
   MaxToks = 1
